@@ -1,6 +1,6 @@
 #!/bin/bash
 # usage: tools/confirm_seed.sh <ID> <A|B>   -- confirms a seeded defect from /tmp/mut/<ID>/out in a scratch worktree of /repo
-ID=$1; V=$2; SRC=/tmp/mut/$ID/out; W=/tmp/confirm/$ID$V
+ID=$1; V=$2; SRC=/tmp/mut/$ID/out; [ -d $SRC ] || SRC=/tmp/mutdone/$ID/out; W=/tmp/confirm/$ID$V
 export CARGO_NET_OFFLINE=true
 rm -rf $W; mkdir -p /tmp/confirm; git -C /repo worktree prune; git -C /repo worktree add --detach $W HEAD >/dev/null 2>&1 || exit 9
 cd $W
